@@ -163,7 +163,7 @@ def variants_of(base: bytes, rng, ctx, exhaustive_flips: bool) -> None:
         mixed = "".join(c.lower() if i % 2 else c for i, c in enumerate(hx))
         check_variant(p1_gen.with_checksum_text(base, mixed.encode()), True, ctx, rng, "correct_mixedcase")
     check_variant(p1_gen.with_checksum_text(base, b""), True, ctx, rng, "no_checksum")
-    for text, label in ((0, "0000"), (1, "0001"), (0xFFFF, "FFFF"), ((good + 1) & 0xFFFF, "plus1"), ((good - 1) & 0xFFFF, "minus1"),
+    for text, label in ((0, "0000"), (1, "0001"), (0xFFFF, "FFFF"), (((good & 0xFF) << 8) | (good >> 8), "byte_swapped"), (good ^ 0xFFFF, "complemented"), ((good + 1) & 0xFFFF, "plus1"), ((good - 1) & 0xFFFF, "minus1"),
                         (good ^ (1 << rng.randrange(16)), "one_bit"), (rng.randrange(65536), "random")):
         exp = True if text == good else False
         check_variant(p1_gen.with_checksum_text(base, b"%04X" % text), exp, ctx, rng, "cs_" + label)
